@@ -151,7 +151,7 @@ def parse(path):
                     else: tags.append(x)
                 cur_block = Block('loop', ' '.join(tags), path, no)
                 cur_fn.loops[n] = (cur_block, it)
-            elif d in ('@before', '@after'):
+            elif d in ('@before', '@after', '@beforeall', '@afterall'):
                 cur_block = Block('anchor', arg, path, no)
                 cur_fn.anchors.append((d[1:], arg, cur_block))
             elif d == '@raw':
